@@ -274,7 +274,9 @@ def to_list_gates(chk, F):
     for c in F.closures_of(fn):
         for s, kind, ap, info in k2.switch_tests(c):
             t = unit_test(ap) if kind == "bool" else None
-            if t and t[0] in ("ne", "eq"):
+            # (the rendering closure also compares dimensionalities - of two units it has just looked up by name, to decide how a
+            # part is labelled; the member test compares the iteration's item with the captured first unit)
+            if t and t[0] in ("ne", "eq") and "Context::lookup(" not in ap_str(ap):
                 member_cl = (c, s, t, ap)
     # the member test may also be inline (loop) in to_list itself
     inline = [(s, unit_test(ap)) for s, kind, ap, info in k2.switch_tests(fn) if kind == "bool" and unit_test(ap) and unit_test(ap)[0] in ("ne", "eq")
